@@ -31,31 +31,31 @@ Lemma old_of_inj a b : old_of a = old_of b -> a = b.
 Proof. unfold old_of. apply app_inv_tail. Qed.
 
 (* ------------------------------------------------------------------ runs *)
-Lemma run_app : forall a b s, run (a ++ b) s = match run a s with Some s' => run b s' | None => None end.
+Lemma run_app fx : forall a b s, run fx (a ++ b) s = match run fx a s with Some s' => run fx b s' | None => None end.
 Proof.
   induction a as [|[k m] a IH]; intros b s; [reflexivity|]. cbn [app run].
-  destruct (apply k (action_of m) s); [apply IH|reflexivity].
+  destruct (apply fx k (action_of m) s); [apply IH|reflexivity].
 Qed.
 
 Definition is_body (m : msg) : bool := match m with MDir _ | MEnd => false | _ => true end.
 
-Lemma apply_body k d m s files : is_body m = true -> find_client k (clients s) = Some d -> fs s d = Some files ->
-  apply k (action_of m) s = Some {| clients := clients s; fs := fs_set d (Some (local_write m files)) (fs s) |}.
+Lemma apply_body fx k d m s files : is_body m = true -> find_client k (clients s) = Some d -> fs s d = Some files ->
+  apply fx k (action_of m) s = Some {| clients := clients s; fs := fs_set d (Some (local_write m files)) (fs s) |}.
 Proof.
   intros B F D. destruct m; cbn [is_body] in B; try discriminate B;
     cbn [action_of apply local_write]; rewrite F, D; reflexivity.
 Qed.
 
-Lemma run_body k d : forall body s files, forallb is_body body = true ->
+Lemma run_body fx k d : forall body s files, forallb is_body body = true ->
   find_client k (clients s) = Some d -> fs s d = Some files ->
-  exists s', run (map (pair k) body) s = Some s' /\ clients s' = clients s /\
+  exists s', run fx (map (pair k) body) s = Some s' /\ clients s' = clients s /\
              fs s' d = Some (fold_left (fun es m => local_write m es) body files) /\
              (forall x, x <> d -> fs s' x = fs s x).
 Proof.
   induction body as [|m r IH]; intros s files B F D.
   - exists s. cbn. auto.
   - cbn [forallb] in B. apply andb_true_iff in B. destruct B as [Bm Br].
-    cbn [map run]. rewrite (apply_body k d m s files Bm F D).
+    cbn [map run]. rewrite (apply_body fx k d m s files Bm F D).
     destruct (IH {| clients := clients s; fs := fs_set d (Some (local_write m files)) (fs s) |} (local_write m files) Br)
       as [s' [R [C [Fd Fo]]]]; cbn [clients fs]; auto using fs_set_same.
     exists s'. cbn [fold_left]. repeat split; auto.
@@ -66,15 +66,16 @@ Qed.
    directory d exactly what the recorder writes locally for the same buffers and files (default.opts
    aside, which create_directory makes on both sides), touches no other directory except for the
    rotation done by create_directory, and leaves the client list as it was. *)
-Lemma same_as_local k d body s :
-  forallb is_body body = true -> create_directory d (fs s) d = Some fresh_dir ->
-  exists s', run (map (pair k) (MDir d :: body ++ [MEnd])) s = Some s' /\
+Lemma same_as_local fx k d body s :
+  forallb is_body body = true -> mkdir_name fx d (clients s) = Some d ->
+  create_directory d (fs s) d = Some fresh_dir ->
+  exists s', run fx (map (pair k) (MDir d :: body ++ [MEnd])) s = Some s' /\
              fs s' d = Some (local_dir body) /\ clients s' = clients s /\
              (forall x, x <> d -> fs s' x = create_directory d (fs s) x).
 Proof.
-  intros B C. cbn [map]. rewrite map_app. cbn [run action_of apply].
+  intros B MK C. cbn [map]. rewrite map_app. cbn [run action_of apply]. rewrite MK.
   rewrite run_app.
-  destruct (run_body k d body {| clients := (k, d) :: clients s; fs := create_directory d (fs s) |} fresh_dir B)
+  destruct (run_body fx k d body {| clients := (k, d) :: clients s; fs := create_directory d (fs s) |} fresh_dir B)
     as [s1 [R [Cl [Fd Fo]]]]; cbn [clients fs find_client]; try rewrite N.eqb_refl; auto.
   rewrite R. cbn [map run action_of apply]. eexists. split; [reflexivity|]. cbn [fs clients].
   rewrite Cl. cbn [clients del_client]. rewrite N.eqb_refl. auto.
@@ -98,20 +99,20 @@ Proof. induction ms as [|m r IH]; [reflexivity|]. cbn. rewrite IH. reflexivity. 
 (* END TO END in the model: the recorder sends a session under ANY schedule of short writes / EINTR
    (all calls succeeding), the stream reaches the receiver in ANY segmentation, and the directory the
    receiver ends up with is the directory local recording writes. *)
-Lemma network_equals_local k d body sched fr t s :
+Lemma network_equals_local fx k d body sched fr t s :
   forallb wf_msg (MDir d :: body ++ [MEnd]) = true -> forallb is_body body = true ->
-  fs s d = None ->
+  fs s d = None -> mkdir_name fx d (clients s) = Some d ->
   send_all sched (MDir d :: body ++ [MEnd]) = (WDone, fr) ->
   good t = true -> bytes_of t = concat fr ->
-  exists s' tm', serve (repeat k (length body + 2)) (tm_set k t (fun _ => [])) s = Some (s', tm') /\
+  exists s' tm', serve fx (repeat k (length body + 2)) (tm_set k t (fun _ => [])) s = Some (s', tm') /\
                  fs s' d = Some (local_dir body) /\ (forall x, x <> d -> fs s' x = fs s x).
 Proof.
-  intros W B A S G Bt.
+  intros W B A MK S G Bt.
   set (ms := MDir d :: body ++ [MEnd]) in *.
   assert (Hs := send_all_spec ms sched). rewrite S in Hs. destruct Hs as [_ [Hd _]]. specialize (Hd eq_refl).
-  destruct (same_as_local k d body s B (create_directory_absent d (fs s) A)) as [s' [R [Fd [Cl Fo]]]].
+  destruct (same_as_local fx k d body s B MK (create_directory_absent d (fs s) A)) as [s' [R [Fd [Cl Fo]]]].
   fold ms in R.
-  assert (RT := serve_roundtrip (map (pair k) ms) (tm_set k t (fun _ => [])) s (fun _ => [])).
+  assert (RT := serve_roundtrip fx (map (pair k) ms) (tm_set k t (fun _ => [])) s (fun _ => [])).
   rewrite R, map_fst_pair in RT.
   destruct RT as [tm' [Sv _]].
   - clear -W. induction ms as [|m r IH]; [reflexivity|]. cbn [map forallb snd] in *.
@@ -206,7 +207,7 @@ Section Isolation.
 
   (* a step of ANOTHER client leaves everything client k can observe unchanged *)
   Lemma step_other j m s1 s1' s2 : j <> k -> ev_ok (j, m) -> inv s1 -> rel s1 s2 ->
-    apply j (action_of m) s1 = Some s1' -> inv s1' /\ rel s1' s2.
+    apply false j (action_of m) s1 = Some s1' -> inv s1' /\ rel s1' s2.
   Proof.
     intros Hj [Hd Hi] I [Rm [Rd Ro]] A. cbn [fst snd] in *. destruct (Hi Hj) as [I1 [I2 I3]].
     assert (Mk : forall x, mine k ((j, x) :: clients s1) = mine k (clients s1)).
@@ -240,13 +241,13 @@ Section Isolation.
 
   (* a step of client k itself depends only on what client k can observe *)
   Lemma step_own m s1 s1' s2 : ev_ok (k, m) -> inv s1 -> rel s1 s2 ->
-    apply k (action_of m) s1 = Some s1' ->
-    exists s2', apply k (action_of m) s2 = Some s2' /\ inv s1' /\ rel s1' s2'.
+    apply false k (action_of m) s1 = Some s1' ->
+    exists s2', apply false k (action_of m) s2 = Some s2' /\ inv s1' /\ rel s1' s2'.
   Proof.
     intros [Hd _] I [Rm [Rd Ro]] A. cbn [fst snd] in *.
     assert (F12 : find_client k (clients s1) = find_client k (clients s2)) by (rewrite !find_client_mine, Rm; reflexivity).
-    assert (App : forall f data, apply k (AAppend f data) s1 = Some s1' ->
-              exists s2', apply k (AAppend f data) s2 = Some s2' /\ inv s1' /\ rel s1' s2').
+    assert (App : forall f data, apply false k (AAppend f data) s1 = Some s1' ->
+              exists s2', apply false k (AAppend f data) s2 = Some s2' /\ inv s1' /\ rel s1' s2').
     { intros f data A'. cbn [apply] in *. rewrite <- F12.
       destruct (find_client k (clients s1)) as [dd|] eqn:F; [|discriminate].
       rewrite (inv_find s1 k dd I F) in *. fold dk in A' |- *. rewrite <- Rd.
@@ -267,12 +268,12 @@ Section Isolation.
   (* ISOLATION: whatever the interleaving with other clients (whose directory names are independent
      of k's), the state client k can observe after the whole run is the state after k's own messages *)
   Lemma isolated : forall evs s1 s2 s1', Forall ev_ok evs -> inv s1 -> rel s1 s2 ->
-    run evs s1 = Some s1' -> exists s2', run (own evs) s2 = Some s2' /\ rel s1' s2'.
+    run false evs s1 = Some s1' -> exists s2', run false (own evs) s2 = Some s2' /\ rel s1' s2'.
   Proof.
     induction evs as [|[j m] r IH]; intros s1 s2 s1' E I R Rn.
     - cbn in Rn. injection Rn as <-. exists s2. split; [reflexivity|exact R].
     - inversion E as [|? ? Ejm Er]; subst. cbn [run] in Rn.
-      destruct (apply j (action_of m) s1) as [s1a|] eqn:A; [|discriminate].
+      destruct (apply false j (action_of m) s1) as [s1a|] eqn:A; [|discriminate].
       cbn [own filter fst]. destruct (j =? k) eqn:Ejk.
       + apply N.eqb_eq in Ejk. subst j.
         destruct (step_own m s1 s1a s2 Ejm I R A) as [s2a [A2 [I' R']]].
@@ -286,8 +287,8 @@ End Isolation.
 Definition server0 : server := {| clients := []; fs := fs_empty |}.
 
 Theorem clients_isolated dirs k evs s' :
-  Forall (ev_ok dirs k) evs -> run evs server0 = Some s' ->
-  exists s'', run (own k evs) server0 = Some s'' /\
+  Forall (ev_ok dirs k) evs -> run false evs server0 = Some s' ->
+  exists s'', run false (own k evs) server0 = Some s'' /\
               fs s' (dirs k) = fs s'' (dirs k) /\ fs s' (old_of (dirs k)) = fs s'' (old_of (dirs k)).
 Proof.
   intros E R. destruct (isolated dirs k evs server0 server0 s' E) as [s'' [R' [_ [H1 H2]]]]; auto.
@@ -305,7 +306,7 @@ Definition evs_same : list (N * msg) :=
   [(1, MDir ud); (1, MData 11 [65]); (2, MDir ud); (1, MData 11 [66]); (2, MData 22 [67]);
    (1, MMeta n_task [97]); (2, MMeta n_task [98]); (1, MEnd); (2, MEnd)].
 Definition dir_after (evs : list (N * msg)) (d : bytes) : option dirent :=
-  match run evs server0 with Some s => fs s d | None => None end.
+  match run false evs server0 with Some s => fs s d | None => None end.
 
 Lemma same_dirname_mixes :
   forallb (fun e => wf_msg (snd e)) evs_same = true /\
@@ -331,7 +332,7 @@ Definition m_t2 : msg := MData 22 [9].
 Definition frags_t1 : list bytes := w_frags (send_msg [WAccept 8; WAccept 100] m_t1).   (* short count = header *)
 Definition frags_t2 : list bytes := w_frags (send_msg [WAccept 100] m_t2).
 Definition after_stream (b : bytes) : option (option dirent) :=
-  match serve_stream (S (length b)) 1 (segment [] b) server0 with
+  match serve_stream false (S (length b)) 1 (segment [] b) server0 with
   | Some s => Some (fs s ud)
   | None => None
   end.
@@ -350,7 +351,7 @@ Proof. vm_compute. repeat split; reflexivity. Qed.
 Definition dirs2 (k : N) : bytes := if k =? 1 then str "a.data" else str "b.data".
 Definition evs2 : list (N * msg) :=
   [(1, MDir (str "a.data")); (2, MDir (str "b.data")); (1, MData 5 [1]); (2, MData 6 [2]); (1, MEnd); (2, MEnd)].
-Example isolation_nonvacuous : Forall (ev_ok dirs2 1) evs2 /\ run evs2 server0 <> None.
+Example isolation_nonvacuous : Forall (ev_ok dirs2 1) evs2 /\ run false evs2 server0 <> None.
 Proof.
   split.
   - unfold evs2. repeat apply Forall_cons; try apply Forall_nil; unfold ev_ok; cbn [fst snd]; split; intros; try discriminate; try congruence;
@@ -488,21 +489,21 @@ Section Survive.
     forall j, In j open -> find_client j (clients s) = Some (dirs j) /\ fs s (dirs j) <> None.
 
   Lemma step_body j m open s : is_body m = true -> In j open -> alive open s ->
-    exists s', apply j (action_of m) s = Some s' /\ alive open s'.
+    exists s', apply false j (action_of m) s = Some s' /\ alive open s'.
   Proof.
     intros B I A. destruct (A j I) as [F D]. destruct (fs s (dirs j)) as [files|] eqn:E; [|congruence].
-    rewrite (apply_body j (dirs j) m s files B F E). eexists. split; [reflexivity|].
+    rewrite (apply_body false j (dirs j) m s files B F E). eexists. split; [reflexivity|].
     intros i Ii. destruct (A i Ii) as [Fi Di]. cbn [clients fs]. split; [exact Fi|].
     unfold fs_set. destruct (list_eqb (dirs i) (dirs j)); [discriminate|exact Di].
   Qed.
 
   Lemma survive : forall evs open s, (forall e, In e evs -> P (fst e)) -> (forall j, In j open -> P j) ->
-    sessions open evs = true -> alive open s -> run evs s <> None.
+    sessions open evs = true -> alive open s -> run false evs s <> None.
   Proof.
     induction evs as [|[j m] r IH]; intros open s PE PO W A; [cbn; discriminate|].
     assert (Pj : P j) by (apply (PE (j, m)); left; reflexivity).
     assert (PEr : forall e, In e r -> P (fst e)) by (intros e I; apply PE; right; exact I).
-    assert (Body : is_body m = true -> memb j open = true -> sessions open r = true -> run ((j, m) :: r) s <> None).
+    assert (Body : is_body m = true -> memb j open = true -> sessions open r = true -> run false ((j, m) :: r) s <> None).
     { intros B M Wr. apply memb_In in M. destruct (step_body j m open s B M A) as [s' [Ap A']].
       cbn [run]. rewrite Ap. apply (IH open s' PEr PO Wr A'). }
     destruct m; cbn [sessions] in W;
@@ -530,7 +531,7 @@ End Survive.
 
 Theorem sessions_survive dirs evs :
   (forall i j, In i (map fst evs) -> In j (map fst evs) -> i <> j -> indep (dirs i) (dirs j)) ->
-  sessions dirs [] evs = true -> run evs server0 <> None.
+  sessions dirs [] evs = true -> run false evs server0 <> None.
 Proof.
   intros PI W. apply (survive dirs (fun i => In i (map fst evs)) PI evs [] server0); auto.
   - intros e I. apply in_map. exact I.
@@ -542,13 +543,13 @@ Example sessions_nonvacuous : sessions dirs2 [] evs2 = true.
 Proof. vm_compute. reflexivity. Qed.
 
 (* ------------------------------------------------------------------ connection reset, descriptor re-used *)
-Lemma serve_w_in : forall order rest tm s,
-  serve_w (map WIn order ++ rest) tm s =
-  match serve order tm s with Some (s1, tm1) => serve_w rest tm1 s1 | None => None end.
+Lemma serve_w_in fx : forall order rest tm s,
+  serve_w fx (map WIn order ++ rest) tm s =
+  match serve fx order tm s with Some (s1, tm1) => serve_w fx rest tm1 s1 | None => None end.
 Proof.
   induction order as [|k r IH]; intros rest tm s; [reflexivity|]. cbn [map app serve_w serve].
   destruct (handle_client_sock (tm k)) as [|a t']; [reflexivity|].
-  destruct (apply k a s) as [s'|]; [apply IH|reflexivity].
+  destruct (apply fx k a s) as [s'|]; [apply IH|reflexivity].
 Qed.
 
 Lemma forallb_wf_pair (k : N) (ms : list msg) :
@@ -563,28 +564,29 @@ Qed.
    on the SAME descriptor number k and records into d2.  Whatever the segmentations: d2 ends up as the local
    recording of the second client, d1 holds exactly what the first one had completely sent, and the client
    table is as before. *)
-Lemma reset_then_reuse k d1 body1 junk d2 body2 t1 t2 s :
+Lemma reset_then_reuse fx k d1 body1 junk d2 body2 t1 t2 s :
   forallb wf_msg (MDir d1 :: body1) = true -> forallb wf_msg (MDir d2 :: body2 ++ [MEnd]) = true ->
   forallb is_body body1 = true -> forallb is_body body2 = true ->
   fs s d1 = None -> fs s d2 = None -> d1 <> d2 -> d1 <> old_of d2 ->
+  mkdir_name fx d1 (clients s) = Some d1 -> mkdir_name fx d2 (clients s) = Some d2 ->
   good t1 = true -> bytes_of t1 = concat (map enc (MDir d1 :: body1)) ++ junk ->
   good t2 = true -> bytes_of t2 = concat (map enc (MDir d2 :: body2 ++ [MEnd])) ->
   exists s' tm',
-    serve_w (map WIn (repeat k (S (length body1))) ++ [WHup k; WNew k t2] ++ map WIn (repeat k (length body2 + 2)))
+    serve_w fx (map WIn (repeat k (S (length body1))) ++ [WHup k; WNew k t2] ++ map WIn (repeat k (length body2 + 2)))
             (tm_set k t1 (fun _ => [])) s = Some (s', tm') /\
     fs s' d1 = Some (local_dir body1) /\ fs s' d2 = Some (local_dir body2) /\ clients s' = clients s.
 Proof.
-  intros W1 W2 B1 B2 A1 A2 N12 N1o G1 Bt1 G2 Bt2.
+  intros W1 W2 B1 B2 A1 A2 N12 N1o MK1 MK2 G1 Bt1 G2 Bt2.
   (* abstract run of the first session, with the hang-up acting as recv_trace_end *)
-  destruct (same_as_local k d1 body1 s B1 (create_directory_absent d1 (fs s) A1)) as [s1 [R1 [F1 [C1 O1]]]].
+  destruct (same_as_local fx k d1 body1 s B1 MK1 (create_directory_absent d1 (fs s) A1)) as [s1 [R1 [F1 [C1 O1]]]].
   change (MDir d1 :: body1 ++ [MEnd]) with ((MDir d1 :: body1) ++ [MEnd]) in R1.
   rewrite map_app, run_app in R1.
-  destruct (run (map (pair k) (MDir d1 :: body1)) s) as [sA|] eqn:RA; [|discriminate].
-  cbn [map run action_of] in R1. destruct (apply k AEnd sA) as [s1'|] eqn:Hup; [|discriminate].
+  destruct (run fx (map (pair k) (MDir d1 :: body1)) s) as [sA|] eqn:RA; [|discriminate].
+  cbn [map run action_of] in R1. destruct (apply fx k AEnd sA) as [s1'|] eqn:Hup; [|discriminate].
   injection R1 as ->.
   (* concrete: first session *)
   rewrite serve_w_in.
-  assert (RT1 := serve_roundtrip (map (pair k) (MDir d1 :: body1)) (tm_set k t1 (fun _ => [])) s
+  assert (RT1 := serve_roundtrip fx (map (pair k) (MDir d1 :: body1)) (tm_set k t1 (fun _ => [])) s
                                  (fun x => if x =? k then junk else [])).
   rewrite RA, map_fst_pair in RT1. cbn [length] in RT1.
   destruct RT1 as [tmA [SvA TA]].
@@ -598,8 +600,9 @@ Proof.
   set (tmB := tm_set k t2 (tm_set k [] tmA)).
   assert (A2' : fs s1 d2 = None).
   { rewrite O1 by congruence. unfold create_directory. rewrite A1. rewrite fs_set_other by congruence. exact A2. }
-  destruct (same_as_local k d2 body2 s1 B2 (create_directory_absent d2 (fs s1) A2')) as [s2 [R2 [F2 [C2 O2]]]].
-  assert (RT2 := serve_roundtrip (map (pair k) (MDir d2 :: body2 ++ [MEnd])) tmB s1 (fun _ => [])).
+  assert (MK2' : mkdir_name fx d2 (clients s1) = Some d2) by (rewrite C1; exact MK2).
+  destruct (same_as_local fx k d2 body2 s1 B2 MK2' (create_directory_absent d2 (fs s1) A2')) as [s2 [R2 [F2 [C2 O2]]]].
+  assert (RT2 := serve_roundtrip fx (map (pair k) (MDir d2 :: body2 ++ [MEnd])) tmB s1 (fun _ => [])).
   rewrite R2, map_fst_pair in RT2.
   destruct RT2 as [tm2 [Sv2 _]].
   { apply forallb_wf_pair. exact W2. }
